@@ -69,7 +69,7 @@ def construct_object(eng, ci, args, kwargs, fr, node):
         from .engine import Frame
         gfr = Frame(None)
         gfr.vars.update(init)
-        H.heap_write(eng, obj, gf, eng.pure_expr(expr, gfr))
+        H.heap_write(eng, obj, gf, eng.pure_expr(expr, gfr), init=True)   # ghost set once, at construction
     return ref
 
 
